@@ -175,11 +175,11 @@ pub struct OpDef {
     pub f: fn(&Input, &mut Out),
 }
 
-const OVERLAY_FAMS: &[&str] = &["rects", "lattice", "circles", "combs", "starholes", "blobs", "tiles", "mantissa"];
-const POLY_FAMS: &[&str] = &["rects", "lattice", "circles", "combs", "starholes", "blobs", "tiles", "mantissa"];
-const VALID_FAMS: &[&str] = &["lattice", "circles", "combs", "starholes", "blobs"];
+const OVERLAY_FAMS: &[&str] = &["rects", "lattice", "circles", "combs", "starholes", "blobs", "tiles", "donuts", "archipelago", "mantissa"];
+const POLY_FAMS: &[&str] = &["rects", "lattice", "circles", "combs", "starholes", "blobs", "tiles", "donuts", "archipelago", "mantissa"];
+const VALID_FAMS: &[&str] = &["lattice", "circles", "combs", "starholes", "blobs", "donuts", "archipelago"];
 /// non-overlapping members that may share edges (tilings): fine for triangulation and stitching
-const TILING_FAMS: &[&str] = &["lattice", "circles", "combs", "starholes", "blobs", "tiles"];
+const TILING_FAMS: &[&str] = &["lattice", "circles", "combs", "starholes", "blobs", "tiles", "donuts", "archipelago"];
 const POINT_FAMS: &[&str] = &["cloud", "rects", "starholes", "blobs", "mantissa", "circles"];
 const ANY: &[&str] = &["*"];
 
